@@ -1,6 +1,6 @@
 ------------------------------- MODULE MC_Pace -------------------------------
 EXTENDS Pace, TLC
-Emit == done => PrintT(<< "T", mapping, dev, termResult, camResult, termSM # NoKeys, chipCompleted >>)
+Emit == done => PrintT(<< "T", mapping, dev, dev2, termResult, camResult, termSM # NoKeys, chipCompleted >>)
 
 \* selection: every non-empty subset of a universe of advertised infos (weights as in pace.go)
 Universe == { [fam |-> "ecdh-gm", w |-> 250], [fam |-> "ecdh-gm", w |-> 253], [fam |-> "ecdh-cam", w |-> 300],
